@@ -207,8 +207,12 @@ Proof. exact (fun F K => hartree_ints_is_point_charge_integral K). Qed.
 Print Assumptions C14_transformed_ints_is_the_codes_call.
 
 (* model level: an accepted call with a transform (any number of rows) returns what the
-   untransformed path returns for T^T P T; and that call is accepted too *)
-Theorem C14_esp_transform_is_backtransformed :
+   untransformed path returns for T^T P T; and that call is accepted too.
+   PARTIAL: the hypothesis [squareb ...] says that the model's integral array is K x K x N.  It is
+   not proved for every basis here (it needs the shapes of every shell's norm / spherical-transform
+   tables); it is decided by computation per basis (Example below), and the runner evaluates it for
+   the array of EVERY case of the correspondence run (the harness stops if it is ever false). *)
+Theorem C14_esp_transform_is_backtransformed_partial :
   forall (F : Type) (K : Fops F), is_field K ->
   forall basis P points ncoords ncharges T thr v,
   squareb (nfun_basis basis) (length points)
@@ -219,7 +223,7 @@ Theorem C14_esp_transform_is_backtransformed :
   /\ ((forall x y, feqb K x y = true <-> x = y) ->
       esp K basis (backtransform K T P (nfun_basis basis)) points ncoords ncharges None thr = Some v).
 Proof. exact (fun F K Kf => esp_transform_is_backtransformed K Kf). Qed.
-Print Assumptions C14_esp_transform_is_backtransformed.
+Print Assumptions C14_esp_transform_is_backtransformed_partial.
 
 Example C14_shape_hypothesis_satisfiable :
   forall (F : Type) (K : Fops F) (x y : F),
